@@ -537,8 +537,10 @@ def check_table(acc, types, header, rows, domain, depth, case):
                 continue
         else:
             ctx.table("in place: index_name = column", "column with repeated values" + zero, {"index_name": c}, lambda: _set_index(c), mh, mr, raises=ValueError)
-            t2 = mk(header, rows)
-            observe(t2)
+            # the refused assignment must leave the table as it was (the same object keeps being used below)
+            if ctx.table("in place: after a refused index_name", "column with repeated values" + zero, {"index_name": c}, lambda: t2, mh, mr) is None:
+                continue
+            ctx.value("in place: after a refused index_name", "index_name", {"index_name": c}, lambda: t2.index_name, None)
         newvals = list(range(100, 100 + n))
 
         def _set_col():
